@@ -21,7 +21,7 @@ Ev == Trace[l]
 Stage(e) ==        \* "ok" or the first clause the event violates
   LET m == e.msg IN
   IF ~Packable(m) THEN (IF e.packed THEN "accepts-unpackable" ELSE "ok")
-  ELSE IF ~e.packed THEN "pack-error"
+  ELSE IF ~e.packed THEN (IF MayRefuse(m) THEN "ok" ELSE "pack-error")    \* AMBIG: an unordered type list may be refused
   ELSE IF e.bytes # EncMsg(m) THEN "pack-octets"
   ELSE IF ~e.unpacked THEN "unpack-error"
   ELSE IF e.msg2 # NormMsg(m) THEN "unpack-fields"
